@@ -24,7 +24,11 @@ def collectNames (j : J) : Tbl :=
     ((st.getArr? "upd").getD []).filterMap fun
       | .arr (.str n :: _) => some n
       | _ => none
-  (ps "pos" ++ ps "kwonly" ++ opt "varargs" ++ opt "varkw" ++ kws "c1" ++ kws "c2" ++ stepNames).eraseDups
+  let lateNames : List String := ((j.getArr? "late").getD []).flatMap fun st =>
+    (((st.getArr? "upd").getD []).filterMap fun
+      | .arr (.str n :: _) => some n
+      | _ => none) ++ (match st.getStr? "name" with | some n => [n] | none => [])
+  (ps "pos" ++ ps "kwonly" ++ opt "varargs" ++ opt "varkw" ++ kws "c1" ++ kws "c2" ++ stepNames ++ lateNames).eraseDups
 
 def paramOfJ (t : Tbl) : J → Option Param
   | .arr [.str n, .null] => some ⟨t.idx n, none⟩
@@ -64,6 +68,13 @@ def callOfJ (t : Tbl) (j : J) : Option CallJ := do
   let o ← optBoolOfJ (j.getD "override" .null)
   let i ← optBoolOfJ (j.getD "ignore" .null)
   pure ⟨⟨args, kwargs⟩, o, i⟩
+
+def lateOfJ (t : Tbl) (j : J) : Option LateOp :=
+  match j.getStr? "op" with
+  | some "rebind" => ((j.get? "upd").bind (kwOfJ t)).map LateOp.rebind
+  | some "set_va" => ((j.getArr? "vals").bind (·.mapM J.asInt?)).map LateOp.setVarargs
+  | some "del" => (j.getStr? "name").map (fun n => LateOp.del (t.idx n))
+  | _ => none
 
 def kwToJ (t : Tbl) (m : KW) : J := .arr (m.map fun (k, v) => .arr [.str (t.name k), .int v])
 
@@ -138,24 +149,28 @@ def handle (j : J) : J :=
         let fix29 := (j.getBool? "fix29").getD true
         let ign := c2.ignore.getD (c1.ignore.getD false)
         let ovr := c2.override.getD (c1.override.getD false)
+        let lateOps0 : List LateOp := ((j.getArr? "late").getD []).filterMap (lateOfJ t)
+        let effL := effectiveLate npo s c1.call lateOps0 c2.call ign
         let common : List (String × J) :=
           [("py_c1", specToJ t npo s c1.call), ("py_c2", specToJ t npo s c2.call),
-           ("effective", match effectivePO npo s c1.call c2.call ign with
-              | .ok c => callToJ t c
+           ("effective", match effL with
+              | .ok (c, _, _) => callToJ t c
               | .error _ => .null),
-           ("py_eff", match effectivePO npo s c1.call c2.call ign with
-              | .ok c => specToJ t npo s c
+           ("py_eff", match effL with
+              | .ok (c, _, _) => specToJ t npo s c
               | .error _ => .null),
-           ("conflict", match nameArgs s c1.call, nameArgs s (if ign then dropExtras s c2.call else c2.call) with
-              | .ok n1, .ok n2 => .bool (conflicts n1 n2)
-              | _, _ => .null),
-           ("va_conflict", match nameArgs s c1.call, nameArgs s (if ign then dropExtras s c2.call else c2.call) with
-              | .ok n1, .ok n2 => .bool (vaConflict n1 n2)
-              | _, _ => .null),
+           ("conflict", match effL with
+              | .ok (_, b, _) => .bool b
+              | .error _ => .null),
+           ("va_conflict", match effL with
+              | .ok (_, _, b) => .bool b
+              | .error _ => .null),
            ("override", .bool ovr)]
+        let lateOps : List LateOp := ((j.getArr? "late").getD []).filterMap (lateOfJ t)
         match functorInit s c1.call (c1.override.getD false) (c1.ignore.getD false) with
         | .error e => .obj ([("init", .str (pyErrName e))] ++ common)
-        | .ok F =>
+        | .ok F0 =>
+          let F := lateOps.foldl Functor.late F0
           .obj ([("init", .str "ok"),
                  ("sym_init_args", reportedToJ t (symInitArgs F)),
                  ("specified", J.ofStrs (F.specified.map t.name)),
